@@ -40,6 +40,25 @@ def run(ctx):
     users = [(f, c) for f in F.host_units() for c in f.calls() if gi and c.target_id == gi.id and not f.is_cleanup(c.bb)]
     R.ob(len(users) == 1 and users[0][0].name.endswith("add_raw_tx_to_block") and mentions(origin(users[0][0], users[0][1].args[0]), ".gas"), "WIRE", gi.where(),
          "WIRE|get_inscription_byte_len|users", "the inverse helper is used outside the parked-transaction path", sample={"rule": "WIRE", "users": [u[0].name for u in users]})
+    # an executed transaction runs with exactly its allowance: the gas limit stored into the EVM's TxEnv on the execution path is
+    # get_gas_limit(inscription_byte_len) itself - not a floor (`.max(21000)`), a cap or a multiple of it
+    atb_ = ER.engine_methods(F).get("add_tx_to_block")
+    n_gl = 0
+    if atb_ is not None:
+        for g_ in [atb_] + list(F.descendants(atb_.id)):
+            for path_, sts_ in W.field_stores(g_).items():
+                if not path_.endswith(".gas_limit") or ".block" in path_:
+                    continue
+                for (_bb, t_) in sts_:
+                    n_gl += 1
+                    rt_ = W.strip(W.resolve(F, g_, t_))
+                    exact = rt_[0] == "call" and rt_[1].split("::")[-1] == "get_gas_limit" and len(rt_[2]) == 1 and \
+                        W.strip(rt_[2][0])[0] == "param" and (W.strip(rt_[2][0])[2] or "") == "inscription_byte_len"
+                    R.ob(exact, "WIRE", g_.where(), "WIRE|execute|gas-limit-exact",
+                         "the executed transaction's gas limit is `%s`, not get_gas_limit(inscription_byte_len) itself: a transaction can spend gas its "
+                         "inscription did not pay for (or less than it paid for)" % show(rt_)[:100],
+                         sample={"rule": "WIRE", "site": "add_tx_to_block", "tx.gas_limit": "get_gas_limit(inscription_byte_len)"})
+    R.floor("executed_tx_gas_limit_stores", n_gl, 1)
     # parked tx stores gas = get_gas_limit(len)
     em = ER.engine_methods(F)
     art = em["add_raw_tx_to_block"]
